@@ -187,6 +187,9 @@ class Attribute:
             if not isinstance(value, (list, tuple)):
                 value = [value]
             return [self.converter(v) for v in value]
+        if isinstance(value, (list, tuple)):
+            # written with the default count 1: several values would make the attribute component undecodable
+            raise TypeError(f"{self} is single-valued; got {type(value)}: {value}")
         return self.converter(value)
 
     @property
